@@ -125,6 +125,40 @@ class SensorB(MeasStub):
     sid = 1
 
 
+class KTok(Opaque):
+    """a value returned by kalman.correct (posterior mean / covariance / innovation of call k): opaque payload with identity"""
+
+    def __init__(self, kind, k):
+        object.__setattr__(self, "kind", kind)
+        object.__setattr__(self, "k", k)
+
+
+class KalmanStub(Opaque):
+    """the kalman module during a scheduling proof: correct() by its data-flow contract"""
+
+    def __init__(self):
+        object.__setattr__(self, "calls", [])
+
+    def correct(self, x, P, z, H, R):
+        k = len(self.calls)
+        out = (KTok("x", k), KTok("P", k), KTok("innovation", k))
+        self.calls.append(dict(x=x, P=P, out=out))
+        return out
+
+
+def kalman_threading(c, kal):
+    """several measurements at one stamp are processed SEQUENTIALLY: the prior of each correction is the posterior of the
+    previous one (mean and covariance objects returned by the previous call)"""
+    for k in range(1, len(kal.calls)):
+        prev = kal.calls[k - 1]["out"]
+        cur = kal.calls[k]
+        c.prove("loop.kalman.sequential", z3.BoolVal(cur["x"] is prev[0] and cur["P"] is prev[1]),
+                "correction %d of one stamp starts from the posterior mean and covariance of correction %d (mean: %s, covariance: %s)"
+                % (k, k - 1, "threaded" if cur["x"] is prev[0] else "NOT the previous posterior", "threaded" if cur["P"] is prev[1] else "NOT the previous posterior"))
+    if len(kal.calls) >= 2:
+        c.prove("guard.kalman.sequential_exercised", z3.BoolVal(True), "a path with two corrections at one stamp exists")
+
+
 class EmptyArr:
     pass
 
